@@ -55,6 +55,10 @@ def build_w(W):
     I = W['img']
     data = np.array(I['data'], dtype=I.get('dtype', 'int32')).reshape(tuple(I['shape']))
     nii = nb.Nifti1Image(data, np.array(I['aff'], dtype=float))
+    if I.get('codes'):                    # [qform_code, sform_code]; default of nb.Nifti1Image(data, affine) is [0, 2]
+        q, sc = I['codes']
+        nii.set_qform(np.array(I['aff'], dtype=float), code=q)
+        nii.set_sform(np.array(I['aff'], dtype=float), code=sc)
     nii.header.set_dim_info(None, None, I['slice'])
     if W.get('ext') is None:
         return dcmmeta.NiftiWrapper(nii, make_empty=True)
@@ -369,7 +373,35 @@ def gen_merge_ok(rng, dim=None, n=None, with_keys=False):
         #  is the region of the open extension-level findings N3 / N4)
         exts = [gen_ext_for(rng, sh, sl, affs[i], keys=False) if rng.random() < 0.5 else None for i in range(n)]
     ws = [{'img': mk_I(rng, sh, affs[i], sl, 1100 * i), 'ext': exts[i]} for i in range(n)]
+    if rng.random() < 0.3:
+        mixed_dtypes(rng, ws)
+        kind += '/dtypes'
     return {'kind': kind, 'ws': ws, 'dim': dim}
+
+
+DTYPE_CHAINS = [['uint8', 'int16', 'int32', 'float64'], ['uint8', 'int16', 'float32', 'float64']]   # each safely castable to the next
+
+
+def mixed_dtypes(rng, ws):
+    """Inputs stored with DIFFERENT dtypes, the narrowest first, every later input holding (integer) values that the first
+    input's type cannot represent (negative / beyond its range): the merged array must be able to hold them all."""
+    chain = rng.choice(DTYPE_CHAINS)
+    first = rng.randrange(0, 3)
+    dts = [chain[first]] + [chain[rng.randrange(first + 1, 4)] for _ in ws[1:]]
+    for i, (W, dt) in enumerate(zip(ws, dts)):
+        n = len(W['img']['data'])
+        if dt == 'uint8':
+            vals = [(7 * k + 13 * i) % 256 for k in range(n)]
+        elif dt == 'int16':
+            vals = [((37 * k + 1000 * i) % 65536) - 32768 if k % 2 else 300 + (k + 100 * i) % 30000 for k in range(n)]
+        elif dt == 'int32':
+            vals = [(-1) ** k * (100000 + 1000003 * i + k) for k in range(n)]
+        elif dt == 'float32':
+            vals = [(-1) ** k * (70000 + 4099 * i + k) for k in range(n)]           # integers below 2**24: exact in float32
+        else:
+            vals = [(-1) ** k * (2 ** 40 + 1000003 * i + k) for k in range(n)]       # exact in float64, beyond int32 / float32
+        W['img']['data'] = vals
+        W['img']['dtype'] = dt
 
 
 def near_axis_step(n):
@@ -568,7 +600,29 @@ def gen_split_case(rng, err=False):
             sl = rng.choice([0, 1, 2])
             dim = sl
             ext = extlib.mk_E(sh, None, A, {})
-    return {'kind': kind, 'w': {'img': mk_I(rng, sh, A, sl, 0), 'ext': ext}, 'dim': dim}
+    I = mk_I(rng, sh, A, sl, 0)
+    r = rng.random()
+    if not err and r < 0.45:
+        # header codes: nb.Nifti1Image(data, affine) alone gives qform 0 / sform 2.  both coded (any affine: the best affine is
+        # the sform); sform only with another code; qform only (the qform stores rotation x zooms only: axis-aligned,
+        # positive in-plane scales, so that it holds the affine exactly)
+        if r < 0.25:
+            I['codes'] = [rng.randint(1, 4), rng.randint(1, 4)]
+            kind += '/q+s'
+        elif r < 0.33:
+            I['codes'] = [0, rng.choice([1, 3, 4])]
+            kind += '/s-only'
+        else:
+            D = [[0.0] * 4 for _ in range(3)] + [[0.0, 0.0, 0.0, 1.0]]
+            for j in range(3):
+                D[j][j] = rng.choice(SCALES) * (rng.choice([1, -1]) if j == 2 else 1)
+                D[j][3] = rng.choice(TRANS)
+            I['aff'] = D
+            I['codes'] = [rng.randint(1, 4), 0]
+            kind += '/q-only'
+            if ext is not None:
+                ext = gen_ext_for(rng, sh, sl, D, keys=False)
+    return {'kind': kind, 'w': {'img': I, 'ext': ext}, 'dim': dim}
 
 
 def gen_rt_case(rng):
